@@ -37,6 +37,12 @@ def install():
         if name == 'plumpy' or name.startswith('plumpy.'):
             raise RuntimeError('plumpy was imported before the seams were installed')
     logging.disable(logging.CRITICAL)  # plumpy logs errors on purpose in many explored paths
+    # abandoned instances (simulated crashes, worker restarts) are destroyed half-run: their destructor-time complaints
+    # ("Exception ignored in: <coroutine ...>") are noise about objects no run looks at any more
+    sys.unraisablehook = lambda unraisable: None
+    import warnings
+
+    warnings.filterwarnings('ignore', category=RuntimeWarning, message='coroutine .* was never awaited')
     import plumpy  # noqa: F401
 
     where = os.path.realpath(plumpy.__file__)
